@@ -7,6 +7,7 @@ import ast
 from ..guards import Lit, Normaliser, canon, facts_at_end
 from ..index import walk_no_nested
 from ..report import Result
+from ..rules import rl_iter
 from ..rules import rb_states, rv_validate, rw_layering
 from ..source import AnalysisError, src
 
@@ -60,20 +61,22 @@ def check(ctx) -> Result:
     res.add(bool(reb) and "outputs" in src(reb[0].targets[0]), "V-validation-dominates-backend", "Simulator.simulate:outputs-rebound", simulate.site(), simulate.qualname, "generated/validated outputs are the ones simulated", "outputs returned by _process_outputs are not used", construct=src(reb[0])[:80] if reb else "")
     # State._validate
     st = ctx.ix.module(STATE).classes.get("State")
-    val = st.methods["_validate"]
-    loops = [l for l in walk_no_nested(val.node) if isinstance(l, ast.For)]
+    from ..inline import with_helpers as _wh
+    val = _wh(ctx, st.methods["_validate"], inline_locals=False)
+    loops = [l for l in walk_no_nested(val.node) if isinstance(l, ast.For) and isinstance(l.target, ast.Name)]
     if not loops:
-        raise AnalysisError("State._validate: loop not found")
-    lp = loops[0]
-    v = lp.target.id
-    okiter = src(lp.iter) in ("self.__s", "self._State__s", "self.s")
-    fake = ast.FunctionDef(name="f", args=val.node.args, body=lp.body, decorator_list=[], returns=None)
-    norm = Normaliser(lambda e: repr(e.value) if isinstance(e, ast.Constant) else None)
-    facts = facts_at_end(fake, norm)
-    need = {"integer": frozenset({Lit("isinstance", v, "int")}), "not bool": frozenset({Lit("notisinstance", v, "bool")}), "non-negative": frozenset({canon(">=", v, "0")})}
-    for nm, cl in need.items():
-        res.add(okiter and any(f == cl for f in facts), "E-occupation-validator", f"State._validate:{nm}", val.site(), val.qualname, f"every occupation is required to be {nm}",
-                f"State._validate does not reject occupations that are not {nm}; established: " + "; ".join(" or ".join(map(str, f)) for f in facts), construct=f"_validate:{nm}")
+        res.frozen(False, "E-occupation-validator", "State._validate", val.site(), val.qualname, "", "loop over the occupations not recognised", construct="")
+    else:
+        lp = loops[0]
+        v = lp.target.id
+        okiter = src(lp.iter) in ("self.__s", "self._State__s", "self.s")
+        fake = ast.FunctionDef(name="f", args=val.node.args, body=lp.body, decorator_list=[], returns=None)
+        norm = Normaliser(lambda e: repr(e.value) if isinstance(e, ast.Constant) else None)
+        facts = facts_at_end(fake, norm)
+        need = {"integer": frozenset({Lit("isinstance", v, "int")}), "not bool": frozenset({Lit("notisinstance", v, "bool")}), "non-negative": frozenset({canon(">=", v, "0")})}
+        for nm, cl in need.items():
+            res.add(okiter and any(f == cl for f in facts), "E-occupation-validator", f"State._validate:{nm}", val.site(), val.qualname, f"every occupation is required to be {nm}",
+                    f"State._validate does not reject occupations that are not {nm}; established: " + "; ".join(" or ".join(map(str, f)) for f in facts), construct=f"_validate:{nm}")
     # permanent
     calc = ctx.func(PERM, "Permanent.calculate")
     part = ctx.func(PERM, "partition")
@@ -126,9 +129,7 @@ def check(ctx) -> Result:
     rw_layering.who_may_call(ctx, res, {"perm"}, {"Permanent.calculate"}, "W-permanent-owner", "the permanent is divided by the factorials of all occupations in one place", 1)
     # herald insertion iterates positions
     ah = ctx.func(HER, "add_heralds_to_state")
-    loops = [l for l in walk_no_nested(ah.node) if isinstance(l, ast.For)]
-    res.add(bool(loops) and all(src(l.iter).startswith("range(") for l in loops), "L-herald-insertion-by-position", "add_heralds_to_state", ah.site(), ah.qualname, "herald insertion walks mode positions (independent of dictionary order)",
-            "herald insertion iterates the herald dictionary (order dependent)", construct=src(loops[0].iter) if loops else "")
+    rl_iter.herald_insertion_by_position(ctx, res, ah)
     from ..rules import rf_cache as _rf
     n7 = 0
     for _cn in ['Simulator']:
